@@ -24,7 +24,7 @@ def parseSet (t : String) : Option (Option (List Bytes)) :=
   else if t.startsWith "=" then (parseList (t.drop 1).toString).map some
   else none
 
-structure PSt where
+structure Parsed where
   has : List (Name × Id × Name) := []
   ents : List (Name × List EntD) := []
   uniq : List ((Name × Name) × List (Bytes × Id)) := []
@@ -46,7 +46,7 @@ def splitIdx (idx : String) : Name × Name :=
   | [a, b] => (a, b)
   | _ => (idx, "")
 
-partial def parseState (toks : List String) (acc : PSt) : Option PSt :=
+partial def parseState (toks : List String) (acc : Parsed) : Option Parsed :=
   match toks with
   | [] => some acc
   | "E" :: st :: id :: rest => do
@@ -75,7 +75,10 @@ partial def parseState (toks : List String) (acc : PSt) : Option PSt :=
     parseState rest { acc with setx := acc.setx ++ [(splitIdx idx, ents)] }
   | _ => none
 
-def toSt (p : PSt) : St := (StD.mk p.ents p.uniq p.setx).toSt
+/-- the state the model runs on: the records of the dump as the physical LAYERED database (child-store
+    records = nested data buckets of the parent's entities), seen through the access paths of the code
+    (`PSt.view`, C09/Layered.lean) -/
+def toSt (p : Parsed) : St := ((StD.mk p.ents p.uniq p.setx).toPSt uniLayering).view uniLayering
 
 /-! ### rendering -/
 
